@@ -201,6 +201,84 @@ func (c *Ctx) resolveAliases() []string {
 			}
 		}
 	}
+	// the same name with the receiver moved: f(p *T, ...) became (p *T).f(...) or the reverse
+	for _, m := range missing {
+		var cand string
+		if i := strings.IndexByte(m, '.'); i >= 0 {
+			cand = m[i+1:] // T.f -> f(t *T, ...)
+		} else {
+			for _, e := range extra {
+				if j := strings.IndexByte(e, '.'); j >= 0 && e[j+1:] == m {
+					if cand != "" {
+						cand = "-"
+						break
+					}
+					cand = e
+				}
+			}
+		}
+		if cand == "" || cand == "-" || used[cand] {
+			continue
+		}
+		o, ok := objs[cand].(*types.Func)
+		if !ok {
+			continue
+		}
+		isExtra := false
+		for _, e := range extra {
+			if e == cand {
+				isExtra = true
+			}
+		}
+		if !isExtra {
+			continue
+		}
+		sig := o.Type().(*types.Signature)
+		okShape := false
+		if i := strings.IndexByte(m, '.'); i >= 0 {
+			// the free function's first parameter is the old receiver type
+			okShape = sig.Recv() == nil && sig.Params().Len() > 0 && typeShort(sig.Params().At(0).Type()) == m[:i]
+		} else {
+			okShape = sig.Recv() != nil
+		}
+		if !okShape {
+			continue
+		}
+		aliasOf[o] = m
+		used[cand] = true
+		notes = append(notes, fmt.Sprintf("%s is taken to be %s (same name, the receiver became a parameter or the reverse)", cand, m))
+	}
+	// a method that kept its name but moved to another receiver of the module (parser.markInitialized ->
+	// scopeCompiler.markInitialized): taken when the name is unique among the unknown methods
+	for _, m := range missing {
+		i := strings.IndexByte(m, '.')
+		if i < 0 {
+			continue
+		}
+		if _, done := aliasByName(m); done {
+			continue
+		}
+		cand := ""
+		for _, e := range extra {
+			if j := strings.IndexByte(e, '.'); j >= 0 && e[j+1:] == m[i+1:] && !used[e] {
+				if cand != "" {
+					cand = "-"
+					break
+				}
+				cand = e
+			}
+		}
+		if cand == "" || cand == "-" {
+			continue
+		}
+		if o, ok := objs[cand].(*types.Func); ok {
+			if _, has := aliasOf[o]; !has {
+				aliasOf[o] = m
+				used[cand] = true
+				notes = append(notes, fmt.Sprintf("%s is taken to be %s (same method name on another receiver)", cand, m))
+			}
+		}
+	}
 	match(af.Functions, full, "full")
 	if af.Body != nil {
 		match(af.Body, bodyPrints, "body")
@@ -209,6 +287,31 @@ func (c *Ctx) resolveAliases() []string {
 	notes = append(notes, c.structuralAliases()...)
 	notes = append(notes, c.lexMethodAliases()...)
 	return notes
+}
+
+// isReferenceFunc: a function of this name (after alias resolution) exists in the reference tree.
+func (c *Ctx) isReferenceFunc(fn *types.Func) bool {
+	if c.memoTab == nil {
+		c.memoTab = map[string]any{}
+	}
+	set, ok := c.memoTab["refFuncs"].(map[string]bool)
+	if !ok {
+		set = map[string]bool{}
+		if b, err := os.ReadFile(filepath.Join(specDir, "anchors.json")); err == nil {
+			var af anchorsFile
+			if json.Unmarshal(b, &af) == nil {
+				for n := range af.Functions {
+					set[n] = true
+				}
+			}
+		}
+		c.memoTab["refFuncs"] = set
+	}
+	n := funcName(fn)
+	if fn.Pkg() != nil && fn.Pkg().Path() == cmdPath {
+		n = "cmd." + strings.TrimPrefix(n, "cmd.")
+	}
+	return set[n]
 }
 
 func aliasByName(name string) (types.Object, bool) {
